@@ -178,11 +178,27 @@ def c17(ctx, spec):
     n = T(ctx, 1500, 60000)
     for (t, d) in cfgs: ctx.run_sharded('c17_t%d_d%d' % (t, d), n, args=['--maxext', 4 if d < 4 else 3], shards=2)
 
+# ---------------------------------------------------------------------------------------------- C18
+MPI_INC = ['-I/usr/lib/x86_64-linux-gnu/openmpi/include']; MPI_LIB = ['-L/usr/lib/x86_64-linux-gnu/openmpi/lib', '-lmpi']
+def c18(ctx, spec):
+    env = {'OMPI_ALLOW_RUN_AS_ROOT': '1', 'OMPI_ALLOW_RUN_AS_ROOT_CONFIRM': '1', 'OMPI_MCA_btl': 'self', 'OMPI_MCA_rmaps_base_oversubscribe': '1'}
+    builds = [dict(name='c18_t%d' % t, src='harness/c18_mpi.cpp', cfg='asan_noleak', defs=['C18_T=%d' % t], flags=MPI_INC, libs=MPI_LIB, env=env) for t in (0, 1, 2)]
+    if ctx.tier == 'thorough': builds += [dict(name='c18vg_t1', src='harness/c18_mpi.cpp', cfg='vg', defs=['C18_T=1'], flags=MPI_INC, libs=MPI_LIB, env=env)]
+    ctx.build(builds)
+    n = T(ctx, 1500, 60000)
+    for t in (0, 1, 2): ctx.run_sharded('c18_t%d' % t, n, args=['--maxext', 4, '--maxops', 5], shards=3, timeout=1200)
+    if ctx.tier == 'thorough': ctx.run_sharded('c18vg_t1', 600, args=['--maxext', 3, '--maxops', 3], shards=6, timeout=3000)
+
 HIST_RULE = ('histories (3..12 steps quick, ..40 thorough) over a pool of 4 owning arrays of one (element type, rank, allocator traits): 26 operation kinds (sizing/fill/allocator-extended/copy/move/view/init-list/iterator constructors, copy/move/self assignment over '
              'every prior state, assignment from views/other element type/init lists/ranges, swap, decay, 3 reextent overloads, clear, ={}, reshape, assign(first,last), element writes, destroy); unique ids as values; extents 0..3. '
              'After EVERY step: each live array vs. its model value, storage ranges pairwise disjoint, live-object registry == sum of num_elements, outstanding blocks == non-empty arrays with matching sizes, block owner == get_allocator(), get_allocator() == what the traits prescribe. ')
 
 REGISTRY = {
+    'C18': dict(fn=c18, level='exploration',
+                rule='singleton MPI_Init (no mpiexec); source = view reached by a random view program (as C01, D 1..4) over an array of int/double/float; message(source.elements()) is packed with MPI_Pack: byte count and every packed element vs. the canonical sequence of the table model; '
+                     'then MPI_Unpack or MPI_Sendrecv-to-self into message(dst.elements()) of a destination with equal extents but another layout (8 kinds: transposed/rotated/unrotated/reversed storage, padded block, strided-of-doubled, subarray) over poisoned storage: k-th element to k-th element, nothing outside the destination view touched. '
+                     'A PMPI interposer keeps a ledger of MPI_Type_create_hvector/resized/vector/dup/contiguous/commit/free and of the datatypes used by Pack/Unpack/Sendrecv: used while uncommitted or dead, freed twice, or never freed are violations. distinct = hash(view program, destination kind, transfer kind); non-trivial = >= 2 elements',
+                assumptions=['one process: Sendrecv to self over MPI_COMM_SELF exercises the same datatype engine as a remote transfer', 'Open MPI internals are uninstrumented (memcheck pass in thorough)']),
     'C17': dict(fn=c17, level='exploration',
                 rule='Boost.Serialization 1.83 text/binary/XML archives; element types int, double, std::string (with spaces and XML metacharacters), nested multi::array<int,1>; ranks 1..4; extents 0..4 incl. all-zero and single-zero; '
                      'whole-array round trip into a loading array in prior state {empty, same extents, other extents, larger, moved-from, same count but other extents}: extents, elements, ==, and re-saving gives the identical archive (XML archives of ints are parsed independently: exactly num_elements items in canonical order); '
